@@ -3,6 +3,7 @@ package rsmdiff
 import (
 	"bytes"
 	"fmt"
+	"io"
 	"sort"
 	"testing"
 
@@ -22,9 +23,13 @@ type cut struct {
 	More int    // entries queued behind the Save task before the worker runs
 	Req  rsm.SSReqType
 	Hold bool // the entries before the request are still queued when it is made
+	Gap  int  // live-install: how far ahead of B the snapshot of the other replica is
 }
 
 func (c cut) String() string {
+	if c.Kind == "live-install" {
+		return fmt.Sprintf("live-install@%d(snapshot %d ahead, queued-behind %d, queued-before %t)", c.At, c.Gap, c.More, c.Hold)
+	}
 	return fmt.Sprintf("%s@%d(race %d, queued-behind %d, queued-before %t)", c.Kind, c.At, c.Race, c.More, c.Hold)
 }
 
@@ -46,6 +51,9 @@ func drawCuts(t *rapid.T, lo, hi uint64, max int, kinds []string) []cut {
 			c.Req = rsm.UserRequested
 		}
 		c.Hold = rapid.Bool().Draw(t, "cutHold")
+		if c.Kind == "live-install" {
+			c.Gap = 2 + rapid.IntRange(0, 60).Draw(t, "cutGap")
+		}
 		out = append(out, c)
 	}
 	sort.SliceStable(out, func(i, j int) bool { return out[i].At < out[j].At })
@@ -150,10 +158,12 @@ func TestVF_C05_Sessions(t *testing.T) {
 	st := vfhelp.NewStats("TestVF_C05_Sessions",
 		"client-API-conformant register/propose/retry/ack/unregister streams of up to 12 clients with generated "+
 			"duplicate placement into the real rsm.StateMachine (regular and concurrent kinds, LRU limit 2..6); "+
-			"twin A never snapshots, twin B goes through generated save / save+restart / restart / export cuts; "+
+			"twin A never snapshots, twin B goes through generated save / save+restart / restart / export cuts and live installs "+
+			"(B lags at j, another replica saves at k > j, B recovers that snapshot through the non-initial Recover task into its live session table); "+
 			"oracle = policy-agnostic session reference model + A/B differential. "+
 			"nontrivial = a duplicate of a (client, series) whose first copy is covered by a snapshot B recovered from "+
-			"is deduplicated after that recovery (cached result or acknowledged), or an overflow eviction is followed by a proposal of the victim")
+			"is deduplicated after that recovery (cached result or acknowledged), or an overflow eviction is followed by a proposal of the victim, "+
+			"or a snapshot is installed into a live instance holding a session the snapshot no longer has and that client shows up again")
 	defer st.Flush()
 	rapid.Check(t, func(t *rapid.T) { runC05(t, st) })
 }
@@ -196,7 +206,7 @@ func runC05(t *rapid.T, st *vfhelp.Stats) {
 	}
 	ents, meta := g.ents, g.meta
 	last := uint64(len(ents))
-	cuts := drawCuts(t, uint64(o.boot), last, 5, []string{"save-restart", "save", "save-restart", "restart", "export", "save-restart"})
+	cuts := drawCuts(t, uint64(o.boot), last, 5, []string{"save-restart", "save", "live-install", "restart", "export", "save-restart", "live-install", "save-restart"})
 
 	// twin A: one incarnation, never snapshots, inspected only at the end
 	a := newReplica(env, "A", 1)
@@ -207,6 +217,8 @@ func runC05(t *rapid.T, st *vfhelp.Stats) {
 	model := newSessModel(limit)
 	verdicts := make([]verdict, len(ents))
 	refAt := make([]kv, len(ents)+1)
+	liveAt := make([]map[uint64]int, len(ents)+1) // client id -> session incarnation the model holds live
+	liveAt[0] = map[uint64]int{}
 	for i, em := range meta {
 		idx := uint64(i + 1)
 		v, sig, msg := model.step(idx, em, a.cur.node.byIndex[idx])
@@ -215,6 +227,10 @@ func runC05(t *rapid.T, st *vfhelp.Stats) {
 		}
 		verdicts[i] = v
 		refAt[idx] = model.ref
+		liveAt[idx] = map[uint64]int{}
+		for c, ms := range model.live {
+			liveAt[idx][c] = ms.inc
+		}
 	}
 	if sig, msg := checkDeliveries(a.cur.usm.pr().updates, model.expectedUpdates(0, last)); sig != "" {
 		vfhelp.Fail(t, "c05-A-"+sig, "twin A: %s", msg)
@@ -254,10 +270,57 @@ func runC05(t *rapid.T, st *vfhelp.Stats) {
 	// twin B: the cuts
 	b := newReplica(env, "B", 1)
 	b.start()
+	type installRec struct{ J, K uint64 }
+	var installs []installRec
 	for i, c := range cuts {
 		feedHold(t, b, ents, c.At, "b", c.Hold)
+		if c.Kind == "live-install" {
+			// B is a live follower that stopped getting entries at j; the rest
+			// of the cluster went on, compacted its log and now sends the
+			// snapshot it took at k: raft restores from it and the node pushes
+			// the non-initial Recover task to the very same state machine
+			j := b.pushed
+			k := j + uint64(c.Gap)
+			if k > last {
+				k = last
+			}
+			if k <= j {
+				b.run()
+				b.skipped = append(b.skipped, "install:nothing-ahead")
+				continue
+			}
+			l := newReplica(env, fmt.Sprintf("L%d", i), 1)
+			l.start()
+			feedTo(t, l, ents, k, "l")
+			l.addSave(rsm.SSRequest{})
+			l.run()
+			if !installFrom(l, b, k) {
+				b.run()
+				b.skipped = append(b.skipped, "install:not-possible")
+				continue
+			}
+			b.addRecover(k)
+			hi := k + uint64(c.More)
+			if hi > last {
+				hi = last
+			}
+			if hi > k {
+				b.add(ents[k:hi])
+			}
+			b.run()
+			if r := b.cur.recovers; len(r) == 0 || r[len(r)-1].Index != k {
+				vfhelp.Fail(t, "c05-install-not-recovered", "live B at %d did not recover the installed snapshot %d (skipped %v)", j, k, b.skipped)
+			}
+			feedTo(t, l, ents, hi, "l")
+			if got, want := b.view(), l.view(); !sameView(got, want) {
+				vfhelp.Fail(t, "c05-live-install-state-differs", "live B (was at %d) after installing snapshot %d and applying to %d: %v; the replica the snapshot came from at %d: %v", j, k, hi, got, hi, want)
+			}
+			l.probeBad()
+			installs = append(installs, installRec{j, k})
+			continue
+		}
 		applyCut(t, b, ents, c, fmt.Sprintf("b%d", i))
-		if inc := b.cur; len(inc.fed) == 0 && len(inc.recovers) > 0 {
+		if inc := b.cur; (c.Kind == "save-restart" || c.Kind == "restart") && len(inc.recovers) > 0 {
 			// just restarted from a snapshot: must be where the uninterrupted twin was
 			want, ok := viewAt[inc.startAt]
 			if !ok {
@@ -272,40 +335,56 @@ func runC05(t *rapid.T, st *vfhelp.Stats) {
 
 	// differential, per incarnation of B
 	dupAfterCut := map[string]int{}
+	first := map[int]uint64{}
+	for i, em := range meta {
+		if em.Tmpl > 0 {
+			if _, ok := first[em.Tmpl]; !ok {
+				first[em.Tmpl] = uint64(i + 1)
+			}
+		}
+	}
 	for _, inc := range b.incs() {
-		lastFed := inc.end()
-		for idx := inc.startAt + 1; idx <= lastFed; idx++ {
+		proc, _ := inc.processed()
+		var want []upd
+		for idx := uint64(1); idx <= last; idx++ {
 			ao, bo := a.cur.node.byIndex[idx], inc.node.byIndex[idx]
-			if len(ao) != len(bo) || (len(ao) == 1 && !sameOutcome(ao[0], bo[0])) {
-				vfhelp.Fail(t, "c05-twins-differ-outcome", "index %d %v: A %v, B/inc%d (started at %d) %v", idx, meta[idx-1], ao, inc.id, inc.startAt, bo)
-			}
-		}
-		for idx, outs := range inc.node.byIndex {
-			if idx <= inc.startAt {
-				vfhelp.Fail(t, "c05-outcome-below-snapshot", "B/inc%d restored at %d reported %v", inc.id, inc.startAt, outs)
-			}
-		}
-		if sig, msg := checkDeliveries(inc.usm.pr().updates, model.expectedUpdates(inc.startAt, lastFed)); sig != "" {
-			vfhelp.Fail(t, "c05-B-"+sig, "B/inc%d (restored at %d, fed to %d): %s", inc.id, inc.startAt, lastFed, msg)
-		}
-		if len(inc.recovers) > 0 {
-			rec := inc.usm.pr().recovered
-			if len(rec) != 1 || rec[0] != refAt[inc.startAt] {
-				vfhelp.Fail(t, "c05-recovered-user-state", "B/inc%d restored at %d: user SM recovered %v, want %v", inc.id, inc.startAt, rec, refAt[inc.startAt])
-			}
-			// which duplicates had to be answered from the restored session table?
-			first := map[int]uint64{}
-			for i, em := range meta {
-				if em.Tmpl > 0 {
-					if _, ok := first[em.Tmpl]; !ok {
-						first[em.Tmpl] = uint64(i + 1)
-					}
+			if !proc[idx] {
+				if len(bo) > 0 {
+					vfhelp.Fail(t, "c05-outcome-for-skipped-entry", "B/inc%d (started at %d, recovered %d snapshots) reported %v for index %d it never had to apply", inc.id, inc.startAt, len(inc.recovers), bo, idx)
 				}
+				continue
 			}
-			for idx := inc.startAt + 1; idx <= lastFed; idx++ {
-				em := meta[idx-1]
-				if em.Kind == ekProposal && em.Copy > 0 && first[em.Tmpl] <= inc.startAt {
+			if len(ao) != len(bo) || (len(ao) == 1 && !sameOutcome(ao[0], bo[0])) {
+				vfhelp.Fail(t, "c05-twins-differ-outcome", "index %d %v: A %v, B/inc%d (started at %d, installs %v) %v", idx, meta[idx-1], ao, inc.id, inc.startAt, installs, bo)
+			}
+		}
+		for _, u := range model.applied {
+			if proc[u.Index] {
+				want = append(want, u)
+			}
+		}
+		if sig, msg := checkDeliveries(inc.usm.pr().updates, want); sig != "" {
+			vfhelp.Fail(t, "c05-B-"+sig, "B/inc%d (started at %d, ended at %d, installs %v): %s", inc.id, inc.startAt, inc.end(), installs, msg)
+		}
+		rec := inc.usm.pr().recovered
+		if len(rec) != len(inc.recovers) {
+			vfhelp.Fail(t, "c05-recovered-user-state", "B/inc%d recovered %d snapshots, user SM saw %d RecoverFromSnapshot calls", inc.id, len(inc.recovers), len(rec))
+		}
+		for i, ss := range inc.recovers {
+			if rec[i] != refAt[ss.Index] {
+				vfhelp.Fail(t, "c05-recovered-user-state", "B/inc%d snapshot %d: user SM recovered %v, want %v", inc.id, ss.Index, rec[i], refAt[ss.Index])
+			}
+		}
+		// which duplicates had to be answered from a restored session table?
+		for idx := range proc {
+			em := meta[idx-1]
+			if em.Kind != ekProposal || em.Copy == 0 {
+				continue
+			}
+			for _, ss := range inc.recovers {
+				if ss.Index < idx && first[em.Tmpl] <= ss.Index {
 					dupAfterCut[verdicts[idx-1].Exp.String()]++
+					break
 				}
 			}
 		}
@@ -416,7 +495,33 @@ func runC05(t *rapid.T, st *vfhelp.Stats) {
 	for _, s := range b.skipped {
 		labels = append(labels, "B:skipped-"+s)
 	}
-	nt := model.victimByProposal > 0 || dupAfterCut["cached"] > 0 || dupAfterCut["acked"] > 0
+	// live installs: did B hold a session that the snapshot no longer has,
+	// and did that client propose again afterwards?
+	staleInstall, staleRetried := 0, 0
+	for _, in := range installs {
+		for c, incn := range liveAt[in.J] {
+			if now, ok := liveAt[in.K][c]; ok && now == incn {
+				continue
+			}
+			staleInstall++
+			for idx := in.K + 1; idx <= last; idx++ {
+				if em := meta[idx-1]; em.Client == c && (em.Kind == ekProposal || em.Kind == ekRegister || em.Kind == ekUnregister) {
+					staleRetried++
+					break
+				}
+			}
+		}
+	}
+	if len(installs) > 0 {
+		labels = append(labels, "B:live-install")
+	}
+	if staleInstall > 0 {
+		labels = append(labels, "B:live-install-with-stale-session")
+	}
+	if staleRetried > 0 {
+		labels = append(labels, "NT:live-install-stale-session-client-returns")
+	}
+	nt := model.victimByProposal > 0 || dupAfterCut["cached"] > 0 || dupAfterCut["acked"] > 0 || staleRetried > 0
 	if dupAfterCut["cached"] > 0 || dupAfterCut["acked"] > 0 {
 		labels = append(labels, "NT:dup-dedup-after-restore")
 	}
@@ -452,6 +557,24 @@ func snapshotPositions(cuts []cut, last uint64, kind smKind) []uint64 {
 			at := p
 			if c.At > at {
 				at = c.At
+			}
+			if c.Kind == "live-install" {
+				k := at + uint64(c.Gap)
+				if k > last {
+					k = last
+				}
+				next[at] = true
+				if k > at {
+					set[k] = true // B may later restart from the installed snapshot
+					for _, more := range []uint64{0, uint64(c.More)} {
+						q := k + more
+						if q > last {
+							q = last
+						}
+						next[q] = true
+					}
+				}
+				continue
 			}
 			set[at] = true
 			for _, more := range []uint64{0, uint64(c.More)} {
@@ -523,4 +646,44 @@ func checkDeliveries(got []upd, want []upd) (string, string) {
 		}
 	}
 	return "", ""
+}
+
+// installFrom puts the latest snapshot of src (which must be at index) into
+// dst's snapshot directory and LogDB record, the way a received InstallSnapshot
+// ends up there (the transfer itself is C15's subject).
+func installFrom(src, dst *replica, index uint64) bool {
+	ss, ok := src.disk.latest()
+	if !ok || ss.Index != index {
+		return false
+	}
+	senv, denv := src.cur.snap.getEnv(index), dst.cur.snap.getEnv(index)
+	if _, err := dst.disk.fs.Stat(denv.GetFinalDir()); err == nil {
+		return false
+	}
+	f, err := src.disk.fs.Open(senv.GetFilepath())
+	if err != nil {
+		panic(err)
+	}
+	data, err := io.ReadAll(f)
+	if err != nil {
+		panic(err)
+	}
+	_ = f.Close()
+	if err := dst.disk.fs.MkdirAll(denv.GetFinalDir(), 0o755); err != nil {
+		panic(err)
+	}
+	w, err := dst.disk.fs.Create(denv.GetFilepath())
+	if err != nil {
+		panic(err)
+	}
+	if _, err := w.Write(data); err != nil {
+		panic(err)
+	}
+	if err := w.Sync(); err != nil {
+		panic(err)
+	}
+	_ = w.Close()
+	ss.Filepath = denv.GetFilepath()
+	dst.disk.setLatest(ss)
+	return true
 }
